@@ -2,8 +2,10 @@
       (gen/QuadTreeGen.v, translator/quadtree.go) is the model's [isQuadTree] (Tms/Model.v).
 
     Regenerated statement by statement: the declarations, the range loop with its state (previousTMID, previousTM),
-    the lookup of the tile matrix, every check with its operands, operators and order, every return with the number
-    of its error, the nil test of previousTM, every pointer dereference, the two assignments at the end of the body.
+    the lookup of the tile matrix, every check with its operands, operators and order (among them, since the repair
+    of F22, `previousTM == nil && tmID != 0`: the first tile matrix must be tile matrix 0), every return with the number
+    of its error (= the index of its message among the distinct messages of the function, in source order), the nil
+    test of previousTM, every pointer dereference, the two assignments at the end of the body.
 
     Kept as functions of the model / of Tms/GoTms.v after the translator has checked the shape of the call in the AST
     (TRUSTED, the same list is at the top of gen/QuadTreeGen.v):
@@ -105,7 +107,7 @@ Definition model_body (prev : option (Z * tileMatrix)) (k : Z) (m : tileMatrix) 
   | Some c => QOk (QRet (Some c))
   | None =>
       match prev with
-      | None => QOk (QCont (k, Some m))
+      | None => if negb (k =? 0) then QOk (QRet (Some 4%nat)) else QOk (QCont (k, Some m))
       | Some (pk, pm) =>
           match check_pair pk pm k m with
           | Accept => QOk (QCont (k, Some m))
@@ -131,7 +133,7 @@ Proof.
   destruct prev as [[pk pm]|]; unfold state_rel in HR.
   - inversion HR; subst pid ptm. clear HR.
     destruct (Hprev pk pm eq_refl) as [Hpk Hle].
-    cbn [is_nonnil]. unfold check_pair. rewrite (succ_wrap k pk Hk Hpk Hle).
+    cbn [is_nil is_nonnil andb]. unfold check_pair. rewrite (succ_wrap k pk Hk Hpk Hle).
     destruct (negb (k =? pk + 1)); [reflexivity|].
     destruct (tm_origin m) as [o|]; cbn [deref qbind]; [|reflexivity].
     destruct (tm_origin pm) as [po|]; cbn [deref qbind]; [|reflexivity].
@@ -142,7 +144,7 @@ Proof.
     destruct (negb (tm_matrixHeight m =? (2 * tm_matrixHeight pm) mod two64)); [reflexivity|].
     rewrite fbetween_quo_ratio_ok.
     destruct (negb (ratio_ok (tm_cellSize pm) (tm_cellSize m))); reflexivity.
-  - cbn [snd] in HR. subst ptm. reflexivity.
+  - cbn [snd] in HR. subst ptm. cbn [is_nil is_nonnil andb]. destruct (negb (k =? 0)); reflexivity.
 Qed.
 
 (** ** The loop *)
@@ -171,7 +173,8 @@ Proof.
   destruct prev as [[pk pm]|].
   - destruct (check_pair pk pm k m) as [|c|]; try reflexivity.
     apply (IH (Some (k, m)) (k, Some m) HSr); [reflexivity|exact (Hnext eq_refl)].
-  - apply (IH (Some (k, m)) (k, Some m) HSr); [reflexivity|exact (Hnext eq_refl)].
+  - destruct (negb (k =? 0)); [reflexivity|].
+    apply (IH (Some (k, m)) (k, Some m) HSr); [reflexivity|exact (Hnext eq_refl)].
 Qed.
 
 Lemma gen_isQuadTree_go_finish : forall t,
